@@ -59,7 +59,7 @@ Floats == FloatCases("Float", 23, {-126, -125, -24, -1, 0, 1, 2, 23, 24, 100, 12
 
 \* ---- strings
 Rep(x, n) == [i \in 1..n |-> x]
-Cps == {65, 0, 127, 128, 2047, 2048, 55295, 57344, 65535, 65536, 1114111, 8364, 128512, 233, 65279, 65534, 10}   \* incl. U+FEFF (a byte order mark is a character like any other)
+Cps == {65, 0, 127, 128, 2047, 2048, 55295, 57344, 65535, 65536, 1114111, 8364, 128512, 233, 65279, 65534, 10, 167, 34, 92, 8232}   \* incl. U+FEFF (a byte order mark is a character like any other)
 Strings ==
   {<<<<"String">>, <<>>>>}
   \cup {<<<<"String">>, <<a>>>> : a \in Cps}
